@@ -25,6 +25,7 @@ int main(int argc, char** argv) {
       {"cycle", [](double x) { return std::make_pair(x * x * x - 2 * x + 2, 3 * x * x - 2); }},
       {"sqrtnan", [](double x) { return std::make_pair(std::sqrt(x - 1) - 1, 0.5 / std::sqrt(x - 1)); }},
       {"pole", [](double x) { return std::make_pair(1 / x - 0.5, -1 / (x * x)); }},
+      {"pole1", [](double x) { return std::make_pair(1 / (x - 1), -1 / ((x - 1) * (x - 1))); }},
       {"zeroderiv", [](double x) { return std::make_pair(x * x - 1, x == 0 ? 0. : 2 * x); }},
       {"plateau", [&](double x) { return std::make_pair(x < -1 ? -1. : (x > 1 ? 1. : x), (x < -1 || x > 1) ? 0. : 1.); }},
       {"nanband", [&](double x) { return std::make_pair((x > 0.5 && x < 0.75) ? nan : x - 0.2, 1.); }},
@@ -49,8 +50,10 @@ int main(int argc, char** argv) {
             return r;
           };
           const double tol = (g() % 2) ? 1e-10 : 1e-3;
+          // one run out of three uses a criterion on the increment only: it does not reject a non-finite function value by itself
+          const bool dxonly = (g() % 3) == 0;
           auto c = [&](const double fv, const double dx, const double x, const int i) {
-            const bool res = std::fabs(fv) < tol && std::fabs(dx) < 1e3;
+            const bool res = dxonly ? (std::fabs(dx) < 1e-6) : (std::fabs(fv) < tol && std::fabs(dx) < 1e3);
             Rec e;
             e.e = "Crit";
             e.x = x;
